@@ -1140,7 +1140,7 @@ func (w *World) RunBatch(specs []ProcSpec, sched Scheduler, faults []Fault) *Bat
 		res.Decisions = append(res.Decisions, pi)
 		p := res.Procs[pi]
 		act := "go"
-		if f, ok := fmap[[2]int{pi, p.Pend.K}]; ok {
+		if f, ok := fmap[[2]int{pi, p.Pend.K}]; ok && (f.Op == "" || f.Op == p.Pend.Op || !strings.HasPrefix(f.Act, "err:")) {
 			act = f.Act
 		} else if w.Rule != nil {
 			if a, ok := w.Rule(p, p.Pend); ok {
